@@ -242,6 +242,11 @@ def ptIdx (P : Option (Int × Int)) (i : Nat) : Except PyErr Int :=
   | none => .error .typeError
   | some (x, y) => .ok (if i = 0 then x else y)
 
+/-- Python `l[lo:]` on a list (negative `lo` counted from the end, clamped) -/
+def sliceFromL {α : Type} (l : List α) (lo : Int) : List α :=
+  let n : Int := l.length
+  l.drop (if lo < 0 then (if lo + n < 0 then 0 else lo + n) else lo).toNat
+
 /-- `math.ceil(num / den)` for a positive denominator, computed exactly -/
 def ceilDiv (num den : Int) : Int := -((-num) / den)
 
